@@ -1264,7 +1264,7 @@ def small_cases(macro, T, LEAVES=None):
 QUICK = {'nat_eval': 600, 'int_eval': 600, 'int_const_ineq': 600, 'real_eval': 800, 'real_const_eq': 600,
          'real_compare': 600, 'real_const_ineq': 600, 'const_inequality': 1200, 'real_norm': 1200,
          'real_eq_comparison': 300}
-THOROUGH_FACTOR = 30
+THOROUGH_FACTOR = 15
 
 
 def shards(tier):
